@@ -129,7 +129,9 @@ Definition enc_decode (bs : bytes) : list N := utf16_sm false bs None 0.
 
 (** ** cfb.rs XlsEncoding *)
 
-(* XlsEncoding::high_byte for UTF_16LE (neither UTF_8 nor single byte): None becomes Some(false) *)
+(* XlsEncoding::high_byte for UTF_16LE, the decoder of every BIFF8 workbook: None becomes Some(false)
+   (since the fix of audit-2 finding XLS-6b for UTF_16LE only: under a code page — BIFF5 byte
+   strings, outside this model — the bytes go to the code page's decoder as they are) *)
 Definition high_byte_cp1200 (hb : option bool) : bool :=
   match hb with Some b => b | None => false end.
 
